@@ -12,7 +12,7 @@ use std::{
     cell::Cell,
     sync::{
         atomic::{AtomicUsize, Ordering},
-        Arc,
+        Arc, Mutex,
     },
 };
 
@@ -48,6 +48,117 @@ pub enum GateKind {
     /// s · (a0(next) − a1): when listed first, the first advice query of the constraint system
     /// is a rotated one (the first opening point is then not `x`)
     NextFirst,
+    /// (extended family) s · (Σ_{i ≡ g mod SHAPE_GROUPS} shape_i(a0, a1) − a2) with `shape_i` the
+    /// entries of `shape_table`: every branch of `evaluation.rs: add_expression` on both operand
+    /// positions. Satisfied by construction (a2 := the value of the sum).
+    Shapes(u8),
+    /// (extended family, NOT honest when `rot > 0`) a gate switched by a plain FIXED column (not a
+    /// `Selector`): fsw · (la0 + la1(Rotation(rot))) on two dedicated advice columns; the switch is
+    /// set on the absolute row `row` only and la0(row) := 0, nothing else is assigned. With
+    /// `row + rot` = first unusable row the gate reads a cell the circuit does not control.
+    LastRow { row: u16, rot: u8 },
+}
+
+/// Number of `GateKind::Shapes` groups.
+pub const SHAPE_GROUPS: u8 = 4;
+
+/// The table of expression shapes behind `GateKind::Shapes`: built with the enum constructors
+/// (the operators of `Expression` simplify `0·e`, `1·e`, `e + 0`, and `replace_selectors` rebuilds
+/// every gate through the operators, so `Constant(0)` / `Constant(1)` operands are spelled
+/// `Scaled(e, 0)`, `Negated(Constant(0))`, `Negated(Constant(−1))`: expressions that are not
+/// syntactically a constant 0 / 1 but compile to `ValueSource::Constant(0 / 1)`).
+pub fn shape_table(a: &Expression<F>, b: &Expression<F>) -> Vec<(&'static str, Expression<F>)> {
+    type E = Expression<F>;
+    let bx = |e: &E| Box::new(e.clone());
+    let c = |v: i64| -> E {
+        if v >= 0 { E::Constant(F::from(v as u64)) } else { E::Constant(-F::from((-v) as u64)) }
+    };
+    let prod = |x: &E, y: &E| E::Product(bx(x), bx(y));
+    let sum = |x: &E, y: &E| E::Sum(bx(x), bx(y));
+    let neg = |x: &E| E::Negated(bx(x));
+    let scaled = |x: &E, v: u64| E::Scaled(bx(x), F::from(v));
+    // value sources Constant(0) / Constant(1) that survive the operators
+    let zero_s = scaled(a, 0);
+    let zero_n = neg(&c(0));
+    let one_n = neg(&c(-1));
+    let ab = prod(a, b);
+    let a_minus_b = sum(a, &neg(b));
+    vec![
+        // constants as LEFT factor
+        ("prod:c0*e", prod(&zero_s, a)),
+        ("prod:c1*e", prod(&one_n, a)),
+        ("prod:c2*e", prod(&c(2), a)),
+        ("prod:c3*e", prod(&c(3), a)),
+        ("prod:cm1*e", prod(&c(-1), a)),
+        // constants as RIGHT factor
+        ("prod:e*c0", prod(b, &zero_n)),
+        ("prod:e*c1", prod(b, &one_n)),
+        ("prod:e*c2", prod(b, &c(2))),
+        ("prod:e*c3", prod(b, &c(3))),
+        ("prod:e*cm1", prod(b, &c(-1))),
+        // squares, both operand orders, reuse of an identical calculation
+        ("prod:e*e", prod(a, a)),
+        ("prod:e*f", prod(a, b)),
+        ("prod:f*e", prod(b, a)),
+        // sums
+        ("sum:e+neg(f)", a_minus_b.clone()),
+        ("sum:c0+neg(f)", sum(&zero_s, &neg(b))),
+        ("sum:e+neg(c0)", sum(a, &neg(&zero_s))),
+        ("sum:e+f", sum(a, b)),
+        ("sum:f+e", sum(b, a)),
+        ("sum:c0+e", sum(&zero_n, a)),
+        ("sum:e+c0", sum(b, &zero_s)),
+        ("sum:e+c3", sum(a, &c(3))),
+        // negations
+        ("neg:e", prod(&neg(a), b)),
+        ("neg:c0", prod(&neg(&zero_s), b)),
+        ("neg:const", prod(&neg(&c(3)), b)),
+        // scaled
+        ("scaled:0", scaled(b, 0)),
+        ("scaled:1", scaled(b, 1)),
+        ("scaled:5", scaled(a, 5)),
+        ("scaled:2", scaled(&ab, 2)),
+        // nested
+        ("nest:(e*c2)*(c2*f)", prod(&prod(a, &c(2)), &prod(&c(2), b))),
+        ("nest:(e-f)*(e-f)", prod(&a_minus_b, &a_minus_b)),
+        ("nest:(e*f)*c2", prod(&ab, &c(2))),
+        ("nest:c2*(e*f)", prod(&c(2), &ab)),
+        ("nest:c2*c2", prod(&prod(&c(2), &c(2)), a)),
+        ("nest:neg(neg(e))", prod(&neg(&neg(b)), &c(3))),
+        ("nest:(e+f)*c2", prod(&sum(a, b), &c(2))),
+        ("nest:c2*(e+neg(f))", prod(&c(2), &a_minus_b)),
+    ]
+}
+
+/// The polynomial `Σ shape_i(a, b)` of group `g` (left-nested sum in table order).
+pub fn shapes_sum(g: u8, a: &Expression<F>, b: &Expression<F>) -> Expression<F> {
+    let mut acc: Option<Expression<F>> = None;
+    for (i, (_, e)) in shape_table(a, b).into_iter().enumerate() {
+        if (i as u8) % SHAPE_GROUPS != g % SHAPE_GROUPS {
+            continue;
+        }
+        acc = Some(match acc {
+            None => e,
+            Some(x) => Expression::Sum(Box::new(x), Box::new(e)),
+        });
+    }
+    acc.expect("non-empty group")
+}
+
+/// Value of an expression without queries (leaves are constants).
+pub fn eval_closed(e: &Expression<F>) -> F {
+    e.evaluate(
+        &|c| c,
+        &|_| unreachable!(),
+        &|_| unreachable!(),
+        &|_| unreachable!(),
+        &|_| unreachable!(),
+        &|_| unreachable!(),
+        &|x| -x,
+        &|x, y| x + y,
+        &|x, y| x * y,
+        &|x, f| x * f,
+    )
 }
 
 #[derive(Clone, Copy, Debug, PartialEq, Eq, Hash)]
@@ -58,7 +169,21 @@ pub enum LookupKind {
     Pair,
     /// cs·a0 ∈ plain instance column (lookup_any)
     AnyInstance,
+    /// (extended family) two-column `lookup_any` whose highest-degree input and highest-degree table
+    /// expression sit in DIFFERENT columns: (cs·a0, m) ∈ (mt0, s_tab·mt1) with `m` a dedicated advice
+    /// column, `mt0`, `mt1` plain fixed columns and `s_tab` a complex selector. Degrees: inputs
+    /// (2, 1), tables (1, 2): `required_degree` = 2 + 2 + 2 = 6.
+    MixedDeg,
+    /// (extended family) cs·(a0 − 5) + 5 ∈ t2 with t2 = {5, …, 5 + 2^bits − 1} assigned by
+    /// `assign_table`: the table has NO zero row and its filler (`fill_from_row` with the default
+    /// value = first row) is 5.
+    NoZero,
 }
+
+/// First value (= filler) of the `LookupKind::NoZero` table.
+pub const NOZERO_BASE: u64 = 5;
+/// Rows of the `LookupKind::MixedDeg` table: (j + 1, 3j + 2), j < MIXED_ROWS.
+pub const MIXED_ROWS: u64 = 4;
 
 #[derive(Clone, Debug, PartialEq, Eq, Hash)]
 pub struct FamParams {
@@ -111,10 +236,14 @@ pub struct FamConfig {
     constants: Column<Fixed>,
     instance: Vec<Column<Instance>>,
     challenge: Option<Challenge>,
-    gate_sel: Vec<Selector>,
+    gate_sel: Vec<Option<Selector>>,
     lookup_sel: Vec<Selector>,
     t0: TableColumn,
     t1: TableColumn,
+    /// extended family (allocated only when a member asks for them)
+    t2: Option<TableColumn>,
+    mixed: Option<(Column<Advice>, Column<Fixed>, Column<Fixed>, Selector)>,
+    last_row: Option<(Column<Fixed>, Column<Advice>, Column<Advice>)>,
     params: FamParams,
 }
 
@@ -125,6 +254,8 @@ pub enum FaultKind {
     Random,
     /// take the value of the previously assigned cell
     Neighbour,
+    /// (extended family) a given small value
+    Set(u64),
 }
 
 #[derive(Clone, Debug)]
@@ -136,11 +267,21 @@ pub struct FamCircuit {
     pub fault: Option<(usize, FaultKind)>,
     /// number of advice assignments performed by the last synthesis (all phases)
     pub cell_count: Arc<AtomicUsize>,
+    /// indices (synthesis order) of the advice assignments that are lookup inputs, with the index
+    /// of the lookup, as seen by the last synthesis
+    pub lookup_cells: Arc<Mutex<Vec<(usize, usize)>>>,
 }
 
 impl FamCircuit {
     pub fn new(params: FamParams, seed: u64) -> Self {
-        FamCircuit { params, seed, known: true, fault: None, cell_count: Arc::new(AtomicUsize::new(0)) }
+        FamCircuit {
+            params,
+            seed,
+            known: true,
+            fault: None,
+            cell_count: Arc::new(AtomicUsize::new(0)),
+            lookup_cells: Arc::new(Mutex::new(vec![])),
+        }
     }
 
     /// Values of the instance columns (committed first), derived from the seed.
@@ -192,6 +333,7 @@ impl Assigner<'_> {
                     F::random(ChaCha8Rng::seed_from_u64(self.seed ^ (idx as u64) ^ 0xfa17))
                 }
                 FaultKind::Neighbour => prev,
+                FaultKind::Set(v) => F::from(v),
             }),
             _ => v,
         };
@@ -252,12 +394,13 @@ impl Circuit<F> for FamCircuit {
         let t1 = meta.lookup_table_column();
 
         let mut gate_sel = vec![];
+        let mut last_row = None;
         for (gi, g) in params.gates.iter().enumerate() {
             let name: &'static str = Box::leak(format!("gate{gi}").into_boxed_str());
             match *g {
                 GateKind::Mul => {
                     let s = meta.selector();
-                    gate_sel.push(s);
+                    gate_sel.push(Some(s));
                     meta.create_gate(name, |m| {
                         let a0 = m.query_advice(adv0[0], Rotation::cur());
                         let a1 = m.query_advice(adv0[1], Rotation::cur());
@@ -267,7 +410,7 @@ impl Circuit<F> for FamCircuit {
                 }
                 GateKind::LinRot => {
                     let s = meta.selector();
-                    gate_sel.push(s);
+                    gate_sel.push(Some(s));
                     meta.create_gate(name, |m| {
                         let a0 = m.query_advice(adv0[0], Rotation::cur());
                         let a1 = m.query_advice(adv0[1], Rotation::next());
@@ -279,7 +422,7 @@ impl Circuit<F> for FamCircuit {
                 GateKind::Pow(d) => {
                     assert!((3..=6).contains(&d));
                     let s = meta.selector();
-                    gate_sel.push(s);
+                    gate_sel.push(Some(s));
                     meta.create_gate(name, |m| {
                         let a0 = m.query_advice(adv0[0], Rotation::cur());
                         let a1 = m.query_advice(adv0[1], Rotation::cur());
@@ -293,7 +436,7 @@ impl Circuit<F> for FamCircuit {
                 GateKind::Additive => {
                     // trash arguments may not contain simple selectors
                     let s = meta.complex_selector();
-                    gate_sel.push(s);
+                    gate_sel.push(Some(s));
                     meta.create_gate(name, |m| {
                         let a0 = m.query_advice(adv0[0], Rotation::cur());
                         let a1 = m.query_advice(adv0[1], Rotation::cur());
@@ -303,7 +446,7 @@ impl Circuit<F> for FamCircuit {
                 }
                 GateKind::Complex => {
                     let s = meta.complex_selector();
-                    gate_sel.push(s);
+                    gate_sel.push(Some(s));
                     meta.create_gate(name, |m| {
                         let q = m.query_selector(s);
                         let a0 = m.query_advice(adv0[0], Rotation::cur());
@@ -315,7 +458,7 @@ impl Circuit<F> for FamCircuit {
                 GateKind::InstRot => {
                     assert!(params.n_plain > 0);
                     let s = meta.selector();
-                    gate_sel.push(s);
+                    gate_sel.push(Some(s));
                     let col = instance[params.n_committed];
                     meta.create_gate(name, |m| {
                         let a0 = m.query_advice(adv0[0], Rotation::cur());
@@ -330,17 +473,45 @@ impl Circuit<F> for FamCircuit {
                 }
                 GateKind::NextFirst => {
                     let s = meta.selector();
-                    gate_sel.push(s);
+                    gate_sel.push(Some(s));
                     meta.create_gate(name, |m| {
                         let a0 = m.query_advice(adv0[0], Rotation::next());
                         let a1 = m.query_advice(adv0[1], Rotation::cur());
                         Constraints::with_selector(s, vec![a0 - a1])
                     });
                 }
+                GateKind::Shapes(g) => {
+                    let s = meta.selector();
+                    gate_sel.push(Some(s));
+                    meta.create_gate(name, |m| {
+                        let a0 = m.query_advice(adv0[0], Rotation::cur());
+                        let a1 = m.query_advice(adv0[1], Rotation::cur());
+                        let a2 = m.query_advice(adv0[2], Rotation::cur());
+                        let sum = shapes_sum(g, &a0, &a1);
+                        Constraints::with_selector(
+                            s,
+                            vec![Expression::Sum(Box::new(sum), Box::new(Expression::Negated(Box::new(a2))))],
+                        )
+                    });
+                }
+                GateKind::LastRow { rot, .. } => {
+                    gate_sel.push(None);
+                    let fsw = meta.fixed_column();
+                    let la0 = meta.advice_column_in(FirstPhase);
+                    let la1 = meta.advice_column_in(FirstPhase);
+                    assert!(last_row.is_none(), "one LastRow gate per member");
+                    last_row = Some((fsw, la0, la1));
+                    meta.create_gate(name, |m| {
+                        let q = m.query_fixed(fsw, Rotation::cur());
+                        let x = m.query_advice(la0, Rotation::cur());
+                        let y = m.query_advice(la1, Rotation(rot as i32));
+                        Constraints::without_selector(vec![q * (x + y)])
+                    });
+                }
                 GateKind::Chal => {
                     assert!(params.n_adv1 > 0);
                     let s = meta.selector();
-                    gate_sel.push(s);
+                    gate_sel.push(Some(s));
                     let ch = challenge.unwrap();
                     meta.create_gate(name, |m| {
                         let a0 = m.query_advice(adv0[0], Rotation::cur());
@@ -362,6 +533,10 @@ impl Circuit<F> for FamCircuit {
         }
 
         let mut lookup_sel = vec![];
+        let t2 = params.lookups.contains(&LookupKind::NoZero).then(|| meta.lookup_table_column());
+        let mixed = params.lookups.contains(&LookupKind::MixedDeg).then(|| {
+            (meta.advice_column_in(FirstPhase), meta.fixed_column(), meta.fixed_column(), meta.complex_selector())
+        });
         for (li, l) in params.lookups.iter().enumerate() {
             let s = meta.complex_selector();
             lookup_sel.push(s);
@@ -392,11 +567,32 @@ impl Circuit<F> for FamCircuit {
                         vec![(q * a0, t)]
                     });
                 }
+                LookupKind::MixedDeg => {
+                    let (madv, mt0, mt1, s_tab) = mixed.unwrap();
+                    meta.lookup_any(name, |m| {
+                        let q = m.query_selector(s);
+                        let qt = m.query_selector(s_tab);
+                        let a0 = m.query_advice(adv0[0], Rotation::cur());
+                        let mm = m.query_advice(madv, Rotation::cur());
+                        let f0 = m.query_fixed(mt0, Rotation::cur());
+                        let f1 = m.query_fixed(mt1, Rotation::cur());
+                        vec![(q * a0, f0), (mm, qt * f1)]
+                    });
+                }
+                LookupKind::NoZero => {
+                    let t2 = t2.unwrap();
+                    meta.lookup(name, |m| {
+                        let q = m.query_selector(s);
+                        let a0 = m.query_advice(adv0[0], Rotation::cur());
+                        let base = Expression::Constant(F::from(NOZERO_BASE));
+                        vec![(q * (a0 - base.clone()) + base, t2)]
+                    });
+                }
             }
         }
         let _ = Expression::<F>::Constant(F::ZERO);
 
-        FamConfig { adv0, adv1, unblinded, f0, constants, instance, challenge, gate_sel, lookup_sel, t0, t1, params }
+        FamConfig { adv0, adv1, unblinded, f0, constants, instance, challenge, gate_sel, lookup_sel, t0, t1, t2, mixed, last_row, params }
     }
 
     fn synthesize(&self, cfg: FamConfig, mut layouter: impl Layouter<F>) -> Result<(), Error> {
@@ -426,6 +622,50 @@ impl Circuit<F> for FamCircuit {
             },
         )?;
 
+        if let Some(t2) = cfg.t2 {
+            // no zero row; the layouter fills the rest of the column with the first value
+            layouter.assign_table(
+                || "nozero",
+                |mut t| {
+                    for i in 0..tmax {
+                        t.assign_cell(|| "t2", t2, i as usize, || Value::known(F::from(NOZERO_BASE + i)))?;
+                    }
+                    Ok(())
+                },
+            )?;
+        }
+        if let Some((_, mt0, mt1, s_tab)) = cfg.mixed {
+            layouter.assign_region(
+                || "mixed table",
+                |mut region| {
+                    for j in 0..MIXED_ROWS {
+                        s_tab.enable(&mut region, j as usize)?;
+                        region.assign_fixed(|| "mt0", mt0, j as usize, || Value::known(F::from(j + 1)))?;
+                        region.assign_fixed(|| "mt1", mt1, j as usize, || Value::known(F::from(3 * j + 2)))?;
+                    }
+                    Ok(())
+                },
+            )?;
+        }
+        if let Some((fsw, la0, _la1)) = cfg.last_row {
+            // dedicated columns: the region starts at row 0, offsets are absolute rows
+            let row = p
+                .gates
+                .iter()
+                .find_map(|g| if let GateKind::LastRow { row, .. } = g { Some(*row as usize) } else { None })
+                .unwrap();
+            layouter.assign_region(
+                || "last row",
+                |mut region| {
+                    region.assign_fixed(|| "fsw", fsw, row, || Value::known(F::ONE))?;
+                    asg.put(&mut region, la0, row, val(F::ZERO))?;
+                    Ok(())
+                },
+            )?;
+        }
+
+        let lookup_cells = self.lookup_cells.clone();
+        lookup_cells.lock().unwrap().clear();
         let n_slots = p.gates.len() + p.lookups.len();
         let mut last_a2: Option<AssignedCell<F, F>> = None;
         for step in 0..p.steps {
@@ -446,7 +686,9 @@ impl Circuit<F> for FamCircuit {
                         // InstRot reads the instance column at absolute rows: only meaningful
                         // (non-zero) in the very first region, which starts at row 0.
                         if p.gates[slot] != GateKind::InstRot || step == 0 {
-                            cfg.gate_sel[slot].enable(&mut region, 1)?;
+                            if let Some(sel) = cfg.gate_sel[slot] {
+                                sel.enable(&mut region, 1)?;
+                            }
                         }
                         match p.gates[slot] {
                             GateKind::InstRot => {
@@ -487,6 +729,16 @@ impl Circuit<F> for FamCircuit {
                                 y = r1;
                                 z = r2;
                             }
+                            GateKind::Shapes(g) => {
+                                x = r1;
+                                y = r2;
+                                z = eval_closed(&shapes_sum(g, &Expression::Constant(r1), &Expression::Constant(r2)));
+                            }
+                            GateKind::LastRow { .. } => {
+                                x = r1;
+                                y = r2;
+                                z = r1;
+                            }
                         }
                     } else {
                         is_lookup = true;
@@ -509,9 +761,21 @@ impl Circuit<F> for FamCircuit {
                                 y = r2;
                                 z = r1;
                             }
+                            LookupKind::MixedDeg => {
+                                x = F::from(step as u64 % MIXED_ROWS + 1);
+                                y = r2;
+                                z = r1;
+                            }
+                            LookupKind::NoZero => {
+                                x = F::from(NOZERO_BASE + step as u64 % tmax);
+                                y = r2;
+                                z = r1;
+                            }
                         }
                     }
-                    let _ = is_lookup;
+                    if is_lookup {
+                        lookup_cells.lock().unwrap().push((counter.get(), slot - p.gates.len()));
+                    }
                     region.assign_fixed(|| "f0", cfg.f0, 1, || Value::known(fconst))?;
                     let linrot = slot < p.gates.len() && p.gates[slot] == GateKind::LinRot;
                     let nextfirst = slot < p.gates.len() && p.gates[slot] == GateKind::NextFirst;
@@ -521,6 +785,12 @@ impl Circuit<F> for FamCircuit {
                     // extra phase-0 columns carry independent values
                     for (j, col) in cfg.adv0.iter().enumerate().skip(3) {
                         asg.put(&mut region, *col, 1, val(r1 + F::from(j as u64)))?;
+                    }
+                    if let (true, Some((madv, ..))) =
+                        (is_lookup && p.lookups[slot - p.gates.len()] == LookupKind::MixedDeg, cfg.mixed)
+                    {
+                        let j = step as u64 % MIXED_ROWS;
+                        asg.put(&mut region, madv, 1, val(F::from(3 * j + 2)))?;
                     }
                     if let Some(u) = cfg.unblinded {
                         let uc = asg.put(&mut region, u, 1, val(x))?;
@@ -639,4 +909,27 @@ pub fn sample_params(rng: &mut impl Rng) -> FamParams {
         steps: rng.gen_range(2..=7),
         table_bits: rng.gen_range(2..=4),
     }
+}
+
+/// Extended sample (C01 / C02 only): a `sample_params` member with some of the extended kinds
+/// added — a `Shapes` group, a `MixedDeg` lookup (on members whose gates stay below degree 6), a
+/// `NoZero` lookup. Always honest (no `LastRow` gate).
+pub fn sample_params_ext(rng: &mut impl Rng) -> FamParams {
+    let mut fp = sample_params(rng);
+    if rng.gen_bool(0.6) {
+        fp.gates.push(GateKind::Shapes(rng.gen_range(0..SHAPE_GROUPS)));
+    }
+    if rng.gen_bool(0.4) {
+        fp.lookups.push(LookupKind::NoZero);
+    }
+    if rng.gen_bool(0.4) {
+        // keep the lookup the only constraint of degree 6
+        fp.gates.retain(|g| !matches!(g, GateKind::Pow(5) | GateKind::Pow(6)));
+        if fp.gates.is_empty() {
+            fp.gates.push(GateKind::Mul);
+        }
+        fp.lookups.push(LookupKind::MixedDeg);
+    }
+    fp.steps = fp.steps.max(fp.gates.len() + fp.lookups.len());
+    fp
 }
